@@ -137,4 +137,8 @@ def run(ctx):
     # heavy modules last is fine; sort by name for determinism
     res = core.run_shards(shard, args)
     res.notes['modules'] = len(mods)
+    # coverage-guided complement: atheris explores (module, text) with the contract as in-target oracle; each case it
+    # reports is decided by prop() above
+    core.fuzz_campaign(ctx, 'c01', ctx.q(12, 420), lambda n: gen.pool(n),
+                       lambda c: prop({'mod': c['mod'], 'value': core.enc(c['x']), 'opts': {}, 'clock': None}, res), res)
     return core.finish(ctx, res, LEVEL, RULE, ASSUME, SUBS)
